@@ -28,8 +28,10 @@ KMAX = int(opt("--max-checks", "5"))
 # the generator of the first pass (same positions, same texts)
 spec = importlib.util.spec_from_file_location("_mut", os.path.join(HERE, "tools", "mutants.py"))
 src = open(os.path.join(HERE, "tools", "mutants.py")).read()
-ns = {}
+ns = {"__file__": os.path.join(HERE, "tools", "mutants.py"), "__name__": "mutants_head"}
+_argv, sys.argv = sys.argv, [sys.argv[0]]
 exec(compile(src.split("\nallm = []")[0], "mutants_head", "exec"), ns)  # definitions only, no run
+sys.argv = _argv
 mutants_of = ns["mutants_of"]
 
 file_anch = {}
